@@ -50,6 +50,48 @@ func walk(v reflect.Value, prefix string, out map[string]string) {
 	}
 }
 
+func printed(v any) string {
+	rv := reflect.ValueOf(v)
+	switch rv.Kind() {
+	case reflect.Int, reflect.Int8, reflect.Int16, reflect.Int32, reflect.Int64:
+		return fmt.Sprintf("%d", rv.Int())
+	}
+	return fmt.Sprintf("%v", v)
+}
+
+func listen[T comparable](path string, p *config.ConfigProp[T], f func(path, value string)) {
+	p.OnChange(func(v T) { f(path, printed(v)) })
+}
+
+// SubscribeAll registers a listener on every setting; values are printed the way Vector prints them.
+// (What a component is told is what it runs with: listeners receive the value as an argument.)
+func SubscribeAll(c *config.Config, f func(path, value string)) {
+	listen("proxy.listen", &c.Proxy.Listen, f)
+	listen("proxy.ca_cert", &c.Proxy.CaCert, f)
+	listen("proxy.ca_key", &c.Proxy.CaKey, f)
+	listen("proxy.upstream_default_https", &c.Proxy.UpstreamDefaultHttps, f)
+	listen("proxy.retry_on_range_416", &c.Proxy.RetryOnRange416, f)
+	listen("proxy.retry_on_invalid_range", &c.Proxy.RetryOnInvalidRange, f)
+	listen("proxy.cache_policy.ignore_cache_control", &c.Proxy.CachePolicy.IgnoreCacheControl, f)
+	listen("proxy.cache_policy.default_max_age", &c.Proxy.CachePolicy.DefaultMaxAge, f)
+	listen("proxy.cache_policy.force_default_max_age", &c.Proxy.CachePolicy.ForceDefaultMaxAge, f)
+	listen("webserver.listen", &c.Webserver.Listen, f)
+	listen("webserver.dashboard_disabled", &c.Webserver.DashboardDisabled, f)
+	listen("webserver.api_disabled", &c.Webserver.ApiDisabled, f)
+	listen("cache.max_cache_size", &c.Cache.MaxCacheSize, f)
+	listen("cache.type", &c.Cache.Type, f)
+	listen("cache.cleanup_interval", &c.Cache.CleanupInterval, f)
+	listen("cache.lock_shards", &c.Cache.LockShards, f)
+	listen("cache.file.dir", &c.Cache.File.Dir, f)
+	listen("cache.memory.memory_budget_percent", &c.Cache.Memory.MemoryBudgetPercent, f)
+	listen("logging.level", &c.Logging.Level, f)
+	listen("logging.file", &c.Logging.File, f)
+	listen("logging.max_size", &c.Logging.MaxSize, f)
+	listen("logging.max_backups", &c.Logging.MaxBackups, f)
+	listen("logging.compress", &c.Logging.Compress, f)
+	listen("logging.to_stdout", &c.Logging.ToStdout, f)
+}
+
 // Diff lists the paths whose values differ.
 func Diff(a, b map[string]string) []string {
 	var out []string
